@@ -109,7 +109,10 @@ func c08op(r *Registry, w *c08world, k int) string {
 		if err != nil {
 			return "Commit:err"
 		}
-		_ = desc
+		// real-time order: once Commit has returned successfully the blob is there (no
+		// operation of the menu deletes it)
+		_, rerr := r.ResolveBlob(vctx, "r", desc.Digest)
+		verifAssert(rerr == nil, "committed-blob-is-retrievable-once-commit-has-returned")
 		return "Commit:ok"
 	}
 }
